@@ -19,7 +19,8 @@ both entry formats, Unit.copy and the registry deep copy do not deep-copy sympy 
 dimensions module; (R2) __reduce__ prepends exactly one (unit text, table) pair to ndarray's state and __setstate__
 consumes exactly that; (R3) every registry rebuilt from a complete saved table is built from that table only
 (add_default_symbols=False) and deep copies carry the unit system; (R4) the text that is persisted is the printer's output,
-which C20-R3 shows to be readable."""
+which C20-R3 shows to be readable.
+(R3, extended) to_json writes one entry for every row of the table; every restoration route is asked for the registry's unit system (pickle, JSON and HDF5 do not carry it: known findings); (R5) savetxt / loadtxt pair every column with its own unit: one unit text per array in order, the header joined from them, and with usecols the unit list is re-indexed by walking usecols."""
 LEVEL_NOTE = """Undecided: behavioural equivalence of arbitrary follow-up programs on restored objects beyond these
 necessary conditions; identity of *compound* dimension expressions (sympy's expression cache decides which of two equal
 symbols a rebuilt product contains) - only UnitRegistry.list_same_dimensions and UnitSystem.__init__ depend on it and
